@@ -151,19 +151,15 @@ Proof.
   destruct (u2b_row c u Hu) as [_ [_ H]]. pose proof (scalar_range u Hs). destruct H as [_ H2]; [lia | exact H2].
 Qed.
 
-Example mutual_sample : In (42048, 19968) b2u_rows /\ In (42048, 19968) u2b_rows.
-Proof. split; [exact (proj1 b2u_rows_sample) | exact (proj1 u2b_rows_sample)]. Qed.
-
 (* ------------------------------------------------------------------ non-vacuity: the model on concrete inputs *)
 
+(* (inputs that do not depend on what the tables contain) *)
 Example model_examples :
-  big5_to_utf8 [164; 64; 65] = Ok [228; 184; 128; 65] /\                      (* A440 'A' -> U+4E00 'A' *)
-  utf8_valid [228; 184; 128; 65] = true /\ bytes_ok [164; 64; 65] = true /\
-  utf8_to_big5 [228; 184; 128; 65] = Ok [164; 64; 65] /\
-  big5_to_utf8 [164] = Ok [] /\ big5_to_utf8 [255; 255] = Ok [] /\          (* dangling lead byte, unmapped pair: dropped *)
+  big5_to_utf8 [72; 105] = Ok [72; 105] /\ utf8_to_big5 [72; 105] = Ok [72; 105] /\ all_ascii [72; 105] /\
+  big5_to_utf8 [72; 164] = Ok [72] /\                                          (* dangling lead byte: dropped *)
+  bytes_ok [72; 164] = true /\ utf8_valid [72] = true /\
   utf8_to_big5 [240; 159; 152; 128] = Ok [255; 253; 255; 253; 255; 253; 255; 253] /\   (* the three inputs that used to stall *)
   utf8_to_big5 [128] = Ok [255; 253] /\
   utf8_to_big5 [228; 184] = Ok [255; 253; 255; 253] /\
-  utf8_to_big5 [194; 128] = Ok [255; 253] /\                                  (* U+0080: well-formed, not in the table *)
-  all_ascii [72; 105] /\ utf8_valid [237; 160; 128] = false /\ utf8_valid [192; 128] = false.
+  utf8_valid [228; 184; 128; 65] = true /\ utf8_valid [237; 160; 128] = false /\ utf8_valid [192; 128] = false /\ utf8_valid [128] = false.
 Proof. vm_compute. repeat split; try reflexivity; repeat constructor. Qed.
